@@ -12,7 +12,7 @@ from ..tlaval import load_dump
 from . import ap as apmod
 
 W = 2
-RUNGS = [1.0, 2.0, 3.0]
+RUNGS = [0.0, 1.0, 2.0]   # the tightest distance threshold is 0: nothing beats it
 
 
 def build(r, rng):
@@ -27,7 +27,9 @@ def build(r, rng):
         if x >= 10:
             lvl, w = x // 10, x % 10
             est = obj3d(base, yaw=(W - w) * math.pi / W, label="car", score=conf, vid=k + 1)
-            gt = obj3d((base[0] + lvl - 0.5, base[1], 0.0), yaw=0.0, label="car", score=1.0, vid=k + 1)
+            # level l beats rungs l..3 : l = 2 -> distance 0.5 (< 1.0), l = 3 -> 1.5 (< 2.0), l = 4 -> 2.5 (beats none);
+            # level 1 would have to beat threshold 0.0, which no distance can (such states are skipped)
+            gt = obj3d((base[0] + lvl - 1.5, base[1], 0.0), yaw=0.0, label="car", score=1.0, vid=k + 1)
         elif x == -1:
             est, gt = obj3d(base, label="car", score=conf, vid=k + 1), None
         else:
@@ -95,9 +97,9 @@ def _one_mono(arg):
         results = [r for r in results if r.ground_truth_object is None or not r.ground_truth_object.semantic_label.is_fp()][:120]
         mode = prm["mode"]
         if mode in ("iou2d", "iou3d"):
-            ladder = sorted(rng.sample([0.05, 0.1, 0.2, 0.3, 0.45, 0.6, 0.8], 5), reverse=True)   # looser = smaller IoU
+            ladder = sorted(rng.sample([0.0, 0.05, 0.1, 0.2, 0.3, 0.45, 0.6, 0.8], 5), reverse=True)   # looser = smaller IoU
         else:
-            ladder = sorted(rng.sample([0.2, 0.4, 0.75, 1.2, 2.2, 4.5, 9.0], 5))
+            ladder = sorted(rng.sample([0.0, 0.2, 0.4, 0.75, 1.2, 2.2, 4.5, 9.0], 5))
         vals = [r.get_matching(MODES[mode]).value for r in results if r.ground_truth_object is not None]
         if any(abs(v - t) < 1e-6 for v in vals for t in ladder):
             continue
@@ -138,6 +140,8 @@ def run(ctx: Ctx):
     os.remove(res.dump_path)
     items = []
     for i, st in enumerate(states):
+        if any(10 <= x < 20 for x in st["r"]):
+            continue
         items.append((list(st["r"]), st["g"], [dict(o) for o in st["out"]], ctx.seed + i))
     if ctx.quick and len(items) > 12000:
         items = items[:: len(items) // 12000 + 1]
